@@ -82,6 +82,12 @@ type Builder struct {
 	suffixData *model.SuffixDataModel
 	// WinOverride, when set, replaces the window class of the shape by explicit (anchorFrom, anchorUntil) values.
 	WinOverride *[2]int64
+	// Extra patches are appended to every delta this builder produces (used to make requests version-specific).
+	Extra []patch.Patch
+}
+
+func (b *Builder) patches(dl string, p int) []patch.Patch {
+	return append(DeltaPatches(dl, p), b.Extra...)
 }
 
 func (b *Builder) window(win string) (int64, int64) {
@@ -102,7 +108,12 @@ func canon(v interface{}) []byte {
 // NewBuilder prepares the DID from the base create shape (the first create of the alphabet whose delta class is not
 // "mismatch"): suffix data = {deltaHash(base delta), recoveryCommitment}.
 func NewBuilder(keys *Keys, base Shape) (*Builder, error) {
-	delta := &model.DeltaModel{UpdateCommitment: keys.C(base.Nuc), Patches: DeltaPatches(base.Dl, base.P)}
+	return NewBuilderExtra(keys, base, nil)
+}
+
+// NewBuilderExtra is NewBuilder with extra patches appended to every delta (including the base create's).
+func NewBuilderExtra(keys *Keys, base Shape, extra []patch.Patch) (*Builder, error) {
+	delta := &model.DeltaModel{UpdateCommitment: keys.C(base.Nuc), Patches: append(DeltaPatches(base.Dl, base.P), extra...)}
 	dh, err := hashing.CalculateModelMultihash(delta, keys.Hash)
 	if err != nil {
 		return nil, err
@@ -112,7 +123,7 @@ func NewBuilder(keys *Keys, base Shape) (*Builder, error) {
 	if err != nil {
 		return nil, err
 	}
-	return &Builder{Keys: keys, Suffix: sfx, suffixData: sd}, nil
+	return &Builder{Keys: keys, Suffix: sfx, suffixData: sd, Extra: extra}, nil
 }
 
 func splitJWS(c string) (h, p, s string) {
@@ -161,14 +172,14 @@ func (b *Builder) Request(sh Shape) ([]byte, error) {
 	ks := b.Keys
 	switch sh.Ty {
 	case "C":
-		delta := &model.DeltaModel{UpdateCommitment: ks.C(sh.Nuc), Patches: DeltaPatches(sh.Dl, sh.P)}
+		delta := &model.DeltaModel{UpdateCommitment: ks.C(sh.Nuc), Patches: b.patches(sh.Dl, sh.P)}
 		if sh.Dl == "mismatch" {
-			delta.Patches = DeltaPatches("ok", sh.P)
+			delta.Patches = b.patches("ok", sh.P)
 		}
 		return canon(&model.CreateRequest{Operation: operation.TypeCreate, SuffixData: b.suffixData, Delta: delta}), nil
 	case "U":
 		emb, signer := b.signingKey(sh)
-		delta := &model.DeltaModel{UpdateCommitment: ks.C(sh.Nuc), Patches: DeltaPatches(sh.Dl, sh.P)}
+		delta := &model.DeltaModel{UpdateCommitment: ks.C(sh.Nuc), Patches: b.patches(sh.Dl, sh.P)}
 		dh, err := hashing.CalculateModelMultihash(delta, ks.Hash)
 		if err != nil {
 			return nil, err
@@ -201,7 +212,7 @@ func (b *Builder) Request(sh Shape) ([]byte, error) {
 			RevealValue: ks.ByID[sh.Rk].RV, SignedData: compact, Delta: reqDelta}), nil
 	case "R":
 		emb, signer := b.signingKey(sh)
-		delta := &model.DeltaModel{UpdateCommitment: ks.C(sh.Nuc), Patches: DeltaPatches(sh.Dl, sh.P)}
+		delta := &model.DeltaModel{UpdateCommitment: ks.C(sh.Nuc), Patches: b.patches(sh.Dl, sh.P)}
 		dh, err := hashing.CalculateModelMultihash(delta, ks.Hash)
 		if err != nil {
 			return nil, err
